@@ -62,7 +62,7 @@ def contracts():
 """},
             at=[("before", "self.limits.iter()", 1, "iter:"),
                 ("loop_start", None, 1, "let ghost clock_before = w.clock;"),
-                ("before_stmt", "if nb_req", 1, """
+                ("after_stmt", "let nb_req", 1, """
                     proof {
                         let l = iter.index@;
                         assert(self.lim()[l] == ((*max_allowed) as int, dur(*duration) as int));
@@ -77,7 +77,7 @@ def contracts():
                             lemma_newer_antitone(self.log(), old(w).clock - self.lim()[l].1, m);
                         }
                     }"""),
-                ("after_stmt", "if nb_req", 1, """
+                ("loop_end", None, 1, """
                     proof {
                         assert forall|l: int| 0 <= l < iter.index@ + 1 implies
                             newer(self.log(), w.clock - (#[trigger] self.lim()[l]).1).len() < self.lim()[l].0 by {
